@@ -499,7 +499,12 @@ class Specialiser:
                 s2.value = self.residual(s.value, env, assume)
             return [s2], "return"
         if isinstance(s, ast.Raise):
-            return [s], "return"
+            s2 = copy.copy(s)
+            if s.exc is not None:
+                s2.exc = self.residual(s.exc, env, assume)
+            if s.cause is not None:
+                s2.cause = self.residual(s.cause, env, assume)
+            return [s2], "return"
         if isinstance(s, ast.Break):
             return [], "break"
         if isinstance(s, ast.Continue):
@@ -516,8 +521,12 @@ class Specialiser:
             self._kill([s], env)
             return [s2], "next"
         if isinstance(s, (ast.With, ast.Try)):
+            if self.unrolled and any(isinstance(x, ast.Name) and x.id in self.unrolled and x.id in env for x in ast.walk(s)):
+                raise GiveUp()           # a loop variable of an unrolled loop inside a statement kind that is not residualised
             self._kill([s], env)
             return [s], "next"
+        if self.unrolled and any(isinstance(x, ast.Name) and x.id in self.unrolled and x.id in env and isinstance(x.ctx, ast.Load) for x in ast.walk(s)):
+            raise GiveUp()
         self._kill([s], env)
         return [s], "next"
 
